@@ -10,13 +10,16 @@
    body of an envelope its caller wrote on that stream ([C02_handler_recv_was_sent_partial]: no fabrication,
    no alteration towards the handler), and the caller observes io.EOF only if the handler of that stream
    returned nil - the envelope it took is the very trailer SendTrailer built from that nil return
-   ([C02_caller_eof_sound_partial]). NOT proved: the order / no-loss / no-duplication clauses at API level,
-   "EOF only after all messages" and EOF completeness: they need per-id FIFO facts of the two components
-   (docs/notes-sy.md);
+   ([C02_caller_eof_sound_partial]), and ORDER towards the handler: the RecvMsg results of a stream handler, in
+   order, are the classifications of a SUBSEQUENCE of the envelopes its caller wrote on that stream, in the
+   order of writing - nothing reordered, duplicated, fabricated or altered ([C02_handler_order_partial]; a gap
+   in the subsequence is a frame dropped because its handler had gone). NOT proved: no loss towards the
+   handler in fault-free runs, order towards the caller, "EOF only after all messages", EOF completeness:
+   they need further per-id FIFO facts of the two components (docs/notes-sy.md);
    the boolean predicates of Check/C02c.v judge all clauses on every recorded history of the real code. *)
 From Coq Require Import List ZArith Bool.
 Import ListNotations.
-From Goat Require Import Model.Client Model.Server Model.Sys Proofs.SysLog Proofs.SysProofs Proofs.SysC01 Proofs.SysC02 Proofs.SysC02b Proofs.SysC02c Proofs.SysC02d.
+From Goat Require Import Model.Client Model.Server Model.Sys Proofs.SysLog Proofs.SysProofs Proofs.SysC01 Proofs.SysC02 Proofs.SysC02b Proofs.SysC02c Proofs.SysC02d Proofs.SysC02e.
 Open Scope Z_scope.
 
 Theorem C02_wire_c2s_prefix_partial : forall pol ls s i, Sys.lrun pol Sys.init ls = Some s ->
@@ -62,6 +65,15 @@ Theorem C02_caller_eof_sound_partial : forall pol ls s c k, Sys.lrun pol Sys.ini
 Proof. exact C02_caller_eof_sound. Qed.
 Print Assumptions C02_caller_eof_sound_partial.
 
+(* order towards the handler: its RecvMsg results, in order, classify a subsequence (same order, no
+   duplication) of the envelopes its caller wrote on the stream *)
+Theorem C02_handler_order_partial : forall pol ls s h k, Sys.lrun pol Sys.init ls = Some s ->
+  nth_error (hs (sv s)) h = Some k ->
+  exists es, subseq es (by_id (fid (h_req k)) (cwrites (Client.log (cl s)))) /\
+             exists fs, map f_env fs = es /\ recv_results h (Server.log (sv s)) = map recv_res fs.
+Proof. exact C02_handler_results_order. Qed.
+Print Assumptions C02_handler_order_partial.
+
 (* a concrete run: one stream, two messages echoed, half-close, the handler sees EOF and returns nil, the
    caller sees both messages and then io.EOF; the final state is quiescent with empty wires *)
 Example C02_demo :
@@ -73,6 +85,7 @@ Example C02_demo :
         = [SvOp 0 (ORecvMsg 11); SvOp 0 OOk; SvOp 0 (ORecvMsg 12); SvOp 0 OOk; SvOp 0 ORecvEof]
       /\ Sys.quiescent s = true /\ c2s s = [] /\ s2c s = []
       /\ In (SvOp 0 ORecvEof) (Server.log (sv s)) /\ In (EvWrite (close_env 1)) (Client.log (cl s))
+      /\ recv_results 0 (Server.log (sv s)) = [ORecvMsg 11; ORecvMsg 12; ORecvEof]
   | None => False
   end.
 Proof. vm_compute. tauto. Qed.
